@@ -44,13 +44,45 @@ def _format_stub(obj, format_spec=""):
 STUBS = [
     "math.floor(symbolic float) -> x.__floor__() (stays symbolic)",
     "format()/f-string of a symbolic non-str value -> '<symbolic>' (error messages only)",
+    "real mode: a float argument is a finite real symbol; arguments named in the harness' `special` pattern also "
+    "take the concrete values nan/-inf/+inf (CrossHair's 4-way fork, restricted to those arguments); no premature realisation",
 ]
 
 
-def install(mode):
+def _make_real_float(special_re):
+    """Creator for symbolic float arguments in real mode.
+
+    CrossHair's own creator forks every float argument 4 ways (finite real | nan | -inf | +inf) and may
+    "prematurely realize" it; here an argument is a finite real symbol, and only arguments whose name matches
+    `special_re` additionally range over the three concrete non-finite values."""
+    import re
+
+    from crosshair.core import _SIMPLE_PROXIES
+    from crosshair.statespace import context_statespace
+
+    rx = re.compile(special_re) if special_re else None
+
+    def make(creator, *type_args):
+        varname, pytype = creator.varname, creator.pytype
+        if rx is not None and rx.search(varname):
+            space = context_statespace()
+            if space.smt_fork(desc=f"{varname}_isfinite", probability_true=0.7):
+                return B.RealBasedSymbolicFloat(varname, pytype)
+            if space.smt_fork(desc=f"{varname}_isnan", probability_true=0.4):
+                return float("nan")
+            if space.smt_fork(desc=f"{varname}_neginf", probability_true=0.5):
+                return float("-inf")
+            return float("inf")
+        return B.RealBasedSymbolicFloat(varname, pytype)
+
+    _SIMPLE_PROXIES[float] = make
+
+
+def install(mode, special_re=None):
     if mode == "real":
         B._PYTYPE_TO_WRAPPER_TYPE[float] = ((B.RealBasedSymbolicFloat, 1.0),)
         S.StateSpace.cap_result_at_unknown = lambda self: None
+        _make_real_float(special_re)
     elif mode == "ieee":
         B._PYTYPE_TO_WRAPPER_TYPE[float] = ((B.PreciseIeeeSymbolicFloat, 1.0),)
     else:
